@@ -10,6 +10,7 @@ import jax
 import jax.numpy as jnp
 import flax.linen as nn
 from flax import nnx
+from flax.nnx import statelib
 from flax.core import unfreeze
 
 begin('C13')
@@ -455,6 +456,127 @@ def rnn_vs_loop(case, ctx):
                    'lens' if case['use_lengths'] else 'full',
                    'call-override' if case['override'] else 'attributes'],
            nontrivial=bool((~valid).any()) or case['reverse'])
+
+
+# ----------------------------------------------------------------------------
+NNX_CELLS = {'lstm': nnx.LSTMCell, 'optlstm': nnx.OptimizedLSTMCell,
+             'gru': nnx.GRUCell, 'simple': nnx.SimpleCell}
+
+
+def nnx_rnn_case():
+  return st.fixed_dictionaries({
+      'cell': st.sampled_from(sorted(NNX_CELLS)), 'hid': st.integers(1, 3),
+      'feat': st.integers(1, 3), 'T': st.integers(1, 5),
+      'B': st.integers(1, 3), 'reverse': st.booleans(),
+      'keep_order': st.booleans(), 'time_major': st.booleans(),
+      'use_lengths': st.booleans(), 'unroll': st.sampled_from([1, 2]),
+      'bidir': st.booleans(), 'override': st.booleans(),
+      'initial_carry': st.booleans(), 'seed': st.integers(0, 2**16)})
+
+
+@clause('nnx_rnn_vs_loop', strategy=nnx_rnn_case, quick=64, thorough=5000,
+        quick_shards=16, thorough_shards=16, x64=True, shrink=False,
+        rule='nnx.RNN over LSTM / OptimizedLSTM / GRU / Simple cells x reverse '
+        'x keep_order x time_major (constructor attributes or call-time '
+        'overrides) x seq_lengths in [1,T] x unroll x initial_carry given or '
+        'default x nnx.Bidirectional: outputs at valid time steps and the '
+        'returned final carry equal a Python loop over the same cell object '
+        '(reversal within each valid length); inputs at padded steps '
+        'influence neither; non-trivial = some length < T, or reverse')
+def nnx_rnn_vs_loop(case, ctx):
+  rng = np.random.default_rng(case['seed'])
+  T, B, F, hid = case['T'], case['B'], case['feat'], case['hid']
+  dt = dict(dtype=jnp.float64, param_dtype=jnp.float64)
+  x = rnd(rng, (B, T, F))
+  lens = rng.integers(1, T + 1, size=B) if case['use_lengths'] else np.full(
+      B, T)
+  def mk_cell(seed):
+    c = NNX_CELLS[case['cell']](F, hid, rngs=nnx.Rngs(seed), **dt)
+    r2 = np.random.default_rng(case['seed'] + seed)
+    for _, v in statelib.to_flat_state(nnx.variables(c, nnx.Param)):
+      v.value = jnp.asarray(rnd(r2, v.value.shape))
+    return c
+  cell = mk_cell(1)
+  flags = dict(time_major=case['time_major'], reverse=case['reverse'],
+               keep_order=case['keep_order'])
+  if case['override']:
+    rnn = nnx.RNN(cell, unroll=case['unroll'])
+    call_kw = dict(flags, return_carry=True)
+  else:
+    rnn = nnx.RNN(cell, unroll=case['unroll'], return_carry=True, **flags)
+    call_kw = {}
+  with sut('initialize_carry'):
+    c_init = cell.initialize_carry((B, F), nnx.Rngs(0))
+  if case['initial_carry']:
+    c_init = jax.tree_util.tree_map(
+        lambda a: jnp.asarray(rnd(rng, a.shape)), c_init)
+    call_kw['initial_carry'] = c_init
+
+  def run(xx):
+    xin = jnp.asarray(np.swapaxes(xx, 0, 1) if case['time_major'] else xx)
+    carry, ys = rnn(xin, seq_lengths=jnp.asarray(lens) if case['use_lengths']
+                    else None, **call_kw)
+    ys = np.asarray(ys)
+    return carry, (np.swapaxes(ys, 0, 1) if case['time_major'] else ys)
+  with sut('nnx.RNN'):
+    carry, ys = run(x)
+  ref_out = np.zeros_like(ys)
+  final = []
+  with sut('cell loop'):
+    for bi in range(B):
+      L = int(lens[bi])
+      seq = x[bi, :L][::-1] if case['reverse'] else x[bi, :L]
+      c = jax.tree_util.tree_map(lambda a: a[bi:bi + 1], c_init)
+      outs = []
+      for t in range(L):
+        c, y = cell(c, jnp.asarray(seq[t:t + 1]))
+        outs.append(np.asarray(y)[0])
+      outs = np.stack(outs)
+      if case['reverse'] and case['keep_order']:
+        outs = outs[::-1]
+      ref_out[bi, :L] = outs
+      final.append(c)
+  final = jax.tree_util.tree_map(lambda *a: np.concatenate(
+      [np.asarray(z) for z in a], axis=0), *final)
+  valid = np.arange(T)[None, :] < lens[:, None]
+  cfg = (f'nnx.RNN({case["cell"]}, {flags}, lengths={lens.tolist()}, '
+         f'override={case["override"]})')
+  require(close(ys[valid], ref_out[valid]), lambda: f'{cfg}: outputs differ '
+          'from the Python loop at valid steps')
+  require(close(carry, final), lambda: f'{cfg}: final carry differs from the '
+          'Python loop')
+  if (~valid).any():
+    x2 = x.copy()
+    x2[~valid] = x2[~valid] + 3.0
+    with sut('nnx.RNN perturbed padding'):
+      carry2, ys2 = run(x2)
+    require(np.array_equal(ys[valid], ys2[valid]), f'{cfg}: inputs at padded '
+            'steps influence outputs at valid steps')
+    require(all(np.array_equal(np.asarray(a), np.asarray(b)) for a, b in zip(
+        jax.tree_util.tree_leaves(carry), jax.tree_util.tree_leaves(carry2))),
+            f'{cfg}: inputs at padded steps influence the final carry')
+  if case['bidir']:
+    tm = case['time_major']
+    f_rnn = nnx.RNN(mk_cell(2), time_major=tm)
+    b_rnn = nnx.RNN(mk_cell(3), time_major=tm)
+    with sut('nnx.Bidirectional'):
+      bi = nnx.Bidirectional(f_rnn, b_rnn, time_major=tm)
+      xin = jnp.asarray(np.swapaxes(x, 0, 1) if tm else x)
+      sl = jnp.asarray(lens) if case['use_lengths'] else None
+      yb = np.asarray(bi(xin, seq_lengths=sl))
+      yf = np.asarray(f_rnn(xin, seq_lengths=sl))
+      ybk = np.asarray(b_rnn(xin, seq_lengths=sl, reverse=True,
+                             keep_order=True))
+    if tm:
+      yb, yf, ybk = (np.swapaxes(a, 0, 1) for a in (yb, yf, ybk))
+    exp = np.concatenate([yf, ybk], axis=-1)
+    require(yb.shape == exp.shape and close(yb[valid], exp[valid]),
+            'nnx.Bidirectional differs from concat(forward RNN, backward RNN '
+            'run in reverse and restored to input order)')
+  ctx.note(labels=[case['cell'], 'override' if case['override'] else 'ctor',
+                   'init-carry' if case['initial_carry'] else 'zero-carry']
+           + (['bidir'] if case['bidir'] else []),
+           nontrivial=bool((lens < T).any()) or case['reverse'])
 
 
 # ----------------------------------------------------------------------------
